@@ -96,6 +96,9 @@ func (d *deriver) strct(s *gen.StructT, top bool) *gen.StructT {
 			continue // deleted in the target
 		}
 		nf := &gen.FieldT{ID: f.ID, Name: f.Name, Alias: f.Alias, Req: f.Req, T: d.typ(f.T, false)}
+		if d.r.Chance(30) {
+			nf.Req = d.r.Intn(3) // the target may ask for another requiredness than the source declares
+		}
 		n.Fields = append(n.Fields, nf)
 	}
 	// added fields
